@@ -142,7 +142,7 @@ var unsupportedKinds = []string{"named uintptr", "named chan", "named func", "na
 	"anonymous struct{chan}", "*anonymous struct{func}", "[]interface{}{anonymous struct{complex}}",
 	"[]interface{}{*prefix, *whole with a chan in the tail}", "struct{*prefix, *whole with a func in the tail}",
 	"second of two types of one class name{unexported field}",
-	"struct{unexported field}", "*struct{sync.Mutex}", "struct{*struct{unexported field}}", "all-zero struct{chan}",
+	"struct{unexported field}", "*struct{unexported field}", "*struct{sync.Mutex}", "struct{*struct{unexported field}}", "all-zero struct{chan}",
 	"struct{Évent chan}", "struct{Ωmega func; Ärger complex128}", "struct{time.Time; chan}", "*struct{struct{time.Time; chan}}",
 	"int beyond 32 bits", "negative int beyond 32 bits", "[]int{.., beyond 32 bits, ..}", "map[string]int{beyond 32 bits}", "struct{int beyond 32 bits}"}
 
@@ -261,6 +261,9 @@ func unsupportedValue(kind string) interface{} {
 	case "struct{unexported field}":
 		// what sits in an unexported field cannot be read, let alone represented
 		return badHidden{A: 1, hits: 3, B: "b"}
+	case "*struct{unexported field}":
+		// (behind a pointer the object has an identity: refused once, refused whenever it is offered)
+		return &badHidden{A: 1, hits: 3, B: "b"}
 	case "*struct{sync.Mutex}":
 		return &badLocked{Name: "n", Hits: 2}
 	case "struct{*struct{unexported field}}":
